@@ -20,6 +20,10 @@ CHECKS = {
   text="Bounded exhaustive enumeration with git itself as the oracle: every ignore-file content over a 13-token gitignore grammar (every single line up to 4/5 tokens; ordered pairs of lines; a root file with a nested a/.gitignore; case-insensitive variants; trailing blanks, escaped blanks, comments) on a fixed 144-file tree (names with dots, dashes, upper case, glob-like names); the set of files the REAL walker yields (only .gitignore active) must equal `git ls-files -o --exclude-standard` in a scratch repository.",
   note="Trusted: git 2.39 as the specification. Skipped (no specification): lines with '//', a backslash before '/', and in path patterns a '**' that is not a whole component or a run of >= 3 stars (git contradicts its own documentation there). Known finding (open): negated classes cross '/', attributed by a counterfactual run of the real walker on rewritten classes.",
   tech="bounded exhaustive enumeration of ignore-file contents against an executable specification (git)"),
+ "C05": dict(cat="exploration", ref="DESIGN.md §4 C05, Appendix A.3",
+  text="Bounded exhaustive enumeration on the real `rg --files`: a tree P/R/S (above the root, the root, a subdirectory) with file, hidden-file and directory probes; every single rule and every conflicting pair of rules (thorough: half of all triples on the file probe) over the seven rule sources x placements x ignore/whitelist x repository placement (.git nowhere / above the root / at the root) with and without --no-require-git; every rule x every filtering flag alone and in pairs (--hidden, --no-ignore*, -u/-uu/-uuu); -t/-T with --type-add; --max-depth 0..2; the root given as '.', relative, absolute, a subdirectory, an explicit file plus a directory. Oracle: a reference model of the documented precedence.",
+  note="Trusted: the reference model (DESIGN.md A.3). Patterns are plain basenames (glob semantics belong to C04/C12). With --no-require-git the repository boundary for parent .gitignore files is unspecified and follows the implementation (DESIGN.md §8).",
+  tech="bounded exhaustive enumeration of rule-source assignments x flags x roots against a reference model of the documented precedence"),
  "C07": dict(cat="model_checking", ref="DESIGN.md §2, §3-E3, §4 C07",
   text="Stateless model checking of the real implementation: the real ignore::WalkParallel runs under a cooperative replay scheduler (feature verif-hooks) and every interleaving of its hooked synchronisation points is executed up to a preemption bound (iterative preemption bounding, CHESS style), with injected Steal::Retry answers and a visitor Quit injected at every visit index, over all small trees; oracle: termination (deadlock / livelock detection) and exact visit multiset.",
   note="Trusted: crossbeam-deque linearizability (each deque operation is one atomic step; Retry is injected), SC behaviour of the RMW/SeqCst atomics, the scheduler hook itself. Not covered: more than 3 (quick) / 4 (thorough) workers, trees above the size bound, schedules needing more preemptions than the bound.",
